@@ -655,6 +655,14 @@ class Model(CallsMixin, BuiltinsMixin):
                     r = ARR((Poly.const(len(its)),), 'i', org=base.org)
                     r.items = list(its)
                     return r
+            if idx.k in ('list', 'tuple') and idx.items is not None and \
+                    all(x.k == 'int' and x.has_const() and
+                        -len(base.items) <= x.c < len(base.items)
+                        for x in idx.items):
+                its = [base.items[x.c] for x in idx.items]
+                r = ARR((Poly.const(len(its)),), 'i')
+                r.items = its
+                return r
             if idx.k == 'int':
                 from .values import join_all as _ja
                 return _ja(base.items) if base.items else INT()
